@@ -125,13 +125,10 @@ func (ev *evaluator) value(e *Expr) (Value, *State, error) {
 		if v, ok := ev.extra[e.Name]; ok {
 			return v, ev.st, nil
 		}
-		if v, ok := ev.st.lenv[e.Name]; ok && ev.extra == nil {
+		if v, ok := ev.st.lenv[e.Name]; ok && ev.extra == nil && !ev.x.isCallee {
 			return v, ev.st, nil
 		}
 		if v, ok := ev.names[e.Name]; ok {
-			return v, ev.st, nil
-		}
-		if v, ok := ev.st.locals[e.Name]; ok {
 			return v, ev.st, nil
 		}
 		switch e.Name {
@@ -145,6 +142,9 @@ func (ev *evaluator) value(e *Expr) (Value, *State, error) {
 			if len(ev.results) > 0 {
 				return ev.results[0], ev.st, nil
 			}
+		}
+		if v, ok := ev.st.locals[e.Name]; ok && !ev.x.isCallee {
+			return v, ev.st, nil
 		}
 		return nil, nil, ev.err("unknown name %s", e.Name)
 	case "field":
@@ -366,7 +366,7 @@ func findPatterns(body, bv *Term) []*Term {
 	}
 	var walkf func(t *Term)
 	walkf = func(t *Term) {
-		if t.Op == "app" && (t.Name == "at" || t.Name == "mdom" || t.Name == "mval") && mentions(t) {
+		if t.Op == "app" && (t.Name == "at" || t.Name == "mdom" || t.Name == "mval") && mentions(t) && !hasIte(t) {
 			if !seen[t.Key()] {
 				seen[t.Key()] = true
 				out = append(out, t)
@@ -383,6 +383,19 @@ func findPatterns(body, bv *Term) []*Term {
 		out = out[:1]
 	}
 	return out
+}
+
+func hasIte(t *Term) bool {
+	switch t.Op {
+	case "ite", "and", "or", "not", "=>", "=", "<", "<=", "forall", "exists":
+		return true
+	}
+	for _, a := range t.Args {
+		if hasIte(a) {
+			return true
+		}
+	}
+	return false
 }
 
 func (ev *evaluator) binary(e *Expr) (*Term, error) {
@@ -483,6 +496,11 @@ func (ev *evaluator) call(e *Expr) (*Term, error) {
 		if err := need(1); err != nil {
 			return nil, err
 		}
+		if v, _, err := ev.value(e.Args[0]); err == nil {
+			if sl, ok := v.(VSlice); ok {
+				return sliceLen(sl), nil
+			}
+		}
 		s, err := ev.term(e.Args[0])
 		if err != nil {
 			return nil, err
@@ -491,6 +509,21 @@ func (ev *evaluator) call(e *Expr) (*Term, error) {
 			return nil, ev.err("len of non-sequence %s", e.Args[0])
 		}
 		return Len(s), nil
+	case "cap":
+		v, _, err := ev.value(e.Args[0])
+		if err != nil {
+			return nil, err
+		}
+		if sl, ok := v.(VSlice); ok {
+			return sl.Cap, nil
+		}
+		return nil, ev.err("cap of non-slice")
+	case "boundedcap":
+		a, err := ev.args(e)
+		if err != nil {
+			return nil, err
+		}
+		return Ite(Lt(a[0], IntC(0)), IntC(0), Ite(Gt(a[0], a[1]), a[1], a[0])), nil
 	case "width", "max", "maxval", "minval":
 		ti, err := ev.typeArg(e.Args[0])
 		if err != nil {
